@@ -39,6 +39,14 @@ PodsOf(j) == {p \in Pods : P(p).job = j}
 Dec == 1..Len(D)
 SeqToSet(s) == {s[i] : i \in 1..Len(s)}
 
+\* node pool of the scheduler (cfg.poolKey / poolVal; "" = no pool): nodes labelled poolKey=poolVal, or - for an
+\* empty poolVal - nodes without the label key
+PoolKey == IF "poolKey" \in DOMAIN scen.cfg THEN scen.cfg.poolKey ELSE ""
+PoolVal == IF "poolVal" \in DOMAIN scen.cfg THEN scen.cfg.poolVal ELSE ""
+InPool(n) == \/ PoolKey = ""
+             \/ PoolVal = "" /\ PoolKey \notin DOMAIN N(n).labels
+             \/ PoolVal # "" /\ PoolKey \in DOMAIN N(n).labels /\ N(n).labels[PoolKey] = PoolVal
+
 (***************************************************************************)
 (* Requests                                                                *)
 (***************************************************************************)
@@ -423,7 +431,7 @@ IdleGpus(n) == N(n).gpus - DevicesUsed(n) - Sum(PipedOn(n), LAMBDA i : Whole(D[i
                - Cardinality((UNION {SeqToSet(D[i].groups) : i \in PipedOn(n)}) \ GroupsInUse(n))
 Unconstrained(p) == /\ DOMAIN P(p).sel = {} /\ DOMAIN P(p).affIn = {} /\ DOMAIN P(p).affNot = {}
                     /\ Len(P(p).podAff) = 0 /\ Len(P(p).podAnt) = 0
-UsableNode(n) == N(n).ready = 1 /\ N(n).unsched = 0 /\ Len(N(n).taints) = 0
+UsableNode(n) == N(n).ready = 1 /\ N(n).unsched = 0 /\ Len(N(n).taints) = 0 /\ InPool(n)
 \* the pods the scheduler has to place to start job j: its first `min` pods (identical template)
 FirstK(S_, k) == {p \in S_ : Cardinality({x \in S_ : x < p}) < k}
 TasksOf(j) == FirstK(PodsOf(j), J(j).min)
@@ -517,6 +525,7 @@ NodeOK(p, n) ==
           \E o \in 1..Len(P(p).tols) : Tolerates(P(p).tols[o], N(n).taints[t])
 IsPlacement(i) == BindAny(i) \/ Piped(i)
 C04_Node == \A i \in Dec : IsPlacement(i) => (D[i].n \in Nodes /\ NodeOK(D[i].p, D[i].n))
+C04_NodePool == \A i \in Dec : IsPlacement(i) => (D[i].n \in Nodes /\ InPool(D[i].n))
 \* topology domain of a term
 SameDomain(a, b, topo) == IF topo = "zone" THEN HasLabel(a, ZoneKey) /\ HasLabel(b, ZoneKey) /\ NodeLabel(a, ZoneKey) = NodeLabel(b, ZoneKey)
                           ELSE a = b
